@@ -180,7 +180,7 @@ def run(tier="quick", seed=0, replay=None):
         print(open(replay).read())
         return 1
     core.lean_stage(chk, "C05")
-    core.soft_bridge(chk, props=("GenBatch", "GenMeanOutput"))
+    core.soft_bridge(chk, props=("GenBatch", "GenInterval", "GenMeanOutput"))
     from harness import cover
     from harness import fingerprint
     fingerprint.direct(chk, ['ixai/explainer/sage/batch.py', 'ixai/explainer/sage/interval.py', 'ixai/explainer/base.py'])
